@@ -254,6 +254,15 @@ def check_cache(ctx, R="C03.cache"):
                     have.append(add(lin(big), scale(lin(small), Fraction(-1))))
         miss = [k for k, f in need.items() if not any(equal(f, g) for g in have)]
         if miss:
+            # the same containment written with an absolute value:  |c - pc| + h/2 <= ph/2
+            for g in have:
+                absk = [k for k in g if k.startswith("abs(")]
+                if len(absk) == 1 and g.get(absk[0]) == -1:
+                    inner = lin_src(absk[0][4:-1])
+                    rest = {k: v for k, v in g.items() if k != absk[0]}
+                    if (equal(inner, lin_src(f"{c_} - {pc}")) or equal(inner, lin_src(f"{pc} - {c_}"))) and equal(rest, lin_src(f"{ph} / 2 - {h_} / 2")):
+                        miss = []
+        if miss:
             ctx.finding(R, r, f"cache reuse without {'/'.join(miss)} containment", f"approxBoundFootprint returns the cached prism without checking that its {' and '.join(miss)} z-bound covers the requested one: a prism that only overlaps the request is too short, so part of the region is cut off")
         else:
             ctx.ok(R, r, "the cached prism is reused only when its z-interval contains the requested interval")
